@@ -1,5 +1,975 @@
 package main
 
-import "verif/harness/lib"
+// C17, end to end: a real gateway (--iam-dir, --iam-cache-ttl / --iam-cache-disable, posix with
+// --chuid --chgid) is driven through its admin API (PATCH /create-user, /update-user, /delete-user,
+// /list-users, SigV4-signed as root); right after every acknowledged admin call signed S3 requests
+// with old and new credentials observe the account as the gateway sees it:
+//   authentication outcome  (200 | SignatureDoesNotMatch | InvalidAccessKeyId)
+//   role                    (CreateBucket allowed? admin API allowed?)
+//   uid / gid               (owner of a file the account creates)
+// Every request of the history is one lookup of Model.IAM; the answers are compared with the model
+// and the observed history is judged by the Spec oracle.  Then: parallel admin mutations + restart,
+// and — when the gateway was built with the hook of docs/C17-hooks.patch — the miss-path race
+// steered from outside through VGW_VERIF_IAM_MISS_GATE.
 
-func c17E2E(a lib.Args, res *lib.Result) error { return nil }
+import (
+	"encoding/hex"
+	"encoding/json"
+	"encoding/xml"
+	"fmt"
+	"os"
+	"path/filepath"
+	"sort"
+	"strconv"
+	"strings"
+	"sync"
+	"sync/atomic"
+	"syscall"
+	"time"
+
+	"verif/harness/gw"
+	"verif/harness/lib"
+)
+
+type c17Env struct {
+	cfg  gw.Config
+	g    *gw.Gateway
+	root gw.Creds
+	n    int // counter for bucket / object names
+}
+
+const c17E2ETTL = 2 // seconds; an `adv` sleeps 1.2 s (model: ttl 5 units, adv 3 units)
+
+func c17StartGw(a lib.Args, name string, mode c17Mode, init []c17Acct, bin string, env []string) (e *c17Env, err error) {
+	err = c17Retry(func() error {
+		os.RemoveAll(filepath.Join(a.Work, name))
+		e, err = c17StartGwOnce(a, name, mode, init, bin, env)
+		if err != nil && strings.Contains(err.Error(), "507") {
+			return fmt.Errorf("no space left on device (%v)", err)
+		}
+		return err
+	})
+	return e, err
+}
+
+func c17StartGwOnce(a lib.Args, name string, mode c17Mode, init []c17Acct, bin string, env []string) (*c17Env, error) {
+	cfg, err := mustStorage(a, name, false, false, func(c *gw.Config) {
+		c.Bin = bin
+		c.Access, c.Secret = c17Root.Access, c17Root.Secret
+		c.Env = env
+	})
+	if err != nil {
+		return nil, err
+	}
+	if !mode.Cache {
+		cfg.IAMCacheOff = true
+	} else if mode.GC {
+		cfg.IAMCacheTTL = c17E2ETTL // pruning stays at its default (1 h): never during a run
+	} else {
+		cfg.IAMCacheTTL = 3600
+	}
+	cfg.BackendArgs = []string{"posix", "--chuid", "--chgid", cfg.Root}
+	if err := c17WriteStore(cfg.IAMDir, init); err != nil {
+		return nil, err
+	}
+	g, err := gw.Start(cfg)
+	if err != nil {
+		return nil, err
+	}
+	e := &c17Env{cfg: cfg, g: g, root: gw.Creds{Access: cfg.Access, Secret: cfg.Secret}}
+	// a bucket everybody may write to: the place where accounts create files
+	r := gw.Do(g.Addr(), gw.Req{Method: "PUT", Path: "/pub", Auth: "header", Creds: e.root,
+		Headers: []gw.Header{{K: "x-amz-acl", V: "public-read-write"}, {K: "x-amz-object-ownership", V: "BucketOwnerPreferred"}}})
+	if r.Status != 200 {
+		g.Kill()
+		return nil, fmt.Errorf("create bucket pub: %d %s %v", r.Status, r.Body, r.Err)
+	}
+	return e, nil
+}
+
+func (e *c17Env) close() {
+	e.g.Kill()
+	os.RemoveAll(e.cfg.Work)
+}
+
+// ---------------------------------------------------------------- admin calls
+
+func (e *c17Env) admin(o c17Op) string {
+	var r gw.Resp
+	switch o.Kind {
+	case "create":
+		a := o.Acct
+		body := fmt.Sprintf("<Account><Access>%s</Access><Secret>%s</Secret><Role>%s</Role><UserID>%d</UserID><GroupID>%d</GroupID></Account>", a.Access, a.Secret, a.Role, a.UID, a.GID)
+		r = gw.Do(e.g.AdminAddr(), gw.Req{Method: "PATCH", Path: "/create-user", Body: []byte(body), Auth: "header", Creds: e.root})
+	case "update":
+		var b strings.Builder
+		b.WriteString("<MutableProps>")
+		if o.Secret != nil {
+			fmt.Fprintf(&b, "<Secret>%s</Secret>", *o.Secret)
+		}
+		if o.UID != nil {
+			fmt.Fprintf(&b, "<UserID>%d</UserID>", *o.UID)
+		}
+		if o.GID != nil {
+			fmt.Fprintf(&b, "<GroupID>%d</GroupID>", *o.GID)
+		}
+		b.WriteString("</MutableProps>")
+		r = gw.Do(e.g.AdminAddr(), gw.Req{Method: "PATCH", Path: "/update-user", Query: "access=" + o.Key, Body: []byte(b.String()), Auth: "header", Creds: e.root})
+	case "delete":
+		r = gw.Do(e.g.AdminAddr(), gw.Req{Method: "PATCH", Path: "/delete-user", Query: "access=" + o.Key, Auth: "header", Creds: e.root})
+	case "list":
+		r = gw.Do(e.g.AdminAddr(), gw.Req{Method: "PATCH", Path: "/list-users", Auth: "header", Creds: e.root})
+		if r.Status == 200 {
+			var doc struct {
+				Accounts []struct {
+					Access  string
+					Secret  string
+					Role    string
+					UserID  int
+					GroupID int
+				}
+			}
+			if err := xml.Unmarshal(r.Body, &doc); err != nil {
+				return "err:list-not-xml:" + strings.ReplaceAll(err.Error(), " ", "_")
+			}
+			l := make([]c17Acct, len(doc.Accounts))
+			for i, x := range doc.Accounts {
+				l[i] = c17Acct{x.Access, x.Secret, x.Role, x.UserID, x.GroupID}
+			}
+			return "accts=" + c17EncAccts(l)
+		}
+	}
+	switch {
+	case r.Err != nil:
+		return "err:transport:" + strings.ReplaceAll(r.Err.Error(), " ", "_")
+	case r.Status >= 200 && r.Status < 300:
+		return "ok"
+	case r.ErrCode() == "XAdminUserExists":
+		return "exists"
+	case r.ErrCode() == "XAdminUserNotFound":
+		return "nosuchuser"
+	}
+	return fmt.Sprintf("err:%d:%s", r.Status, r.ErrCode())
+}
+
+// ---------------------------------------------------------------- probes (each request = one lookup)
+
+type c17Probe struct {
+	Kind   string `json:"kind"` // auth | role | owner
+	Key    string `json:"key"`
+	Secret string `json:"secret"`
+}
+
+// outcome of the authentication of one signed request
+func c17AuthOutcome(r gw.Resp) string {
+	switch {
+	case r.Err != nil:
+		return "transport"
+	case r.ErrCode() == "InvalidAccessKeyId":
+		return "nokey"
+	case r.ErrCode() == "SignatureDoesNotMatch":
+		return "badsig"
+	}
+	return "in" // authenticated (whatever the operation answered)
+}
+
+// probe returns one observation per request it sent: (outcome, pattern for the oracle)
+type c17ProbeObs struct {
+	What string // canonical observation, compared with what the model's account implies
+	Pat  string // <res> of the oracle's record
+}
+
+func (e *c17Env) authProbe(k, secret string) c17ProbeObs {
+	r := gw.Do(e.g.Addr(), gw.Req{Method: "GET", Path: "/", Auth: "header", Creds: gw.Creds{Access: k, Secret: secret}})
+	switch out := c17AuthOutcome(r); out {
+	case "nokey":
+		return c17ProbeObs{"nokey", "nosuchuser"}
+	case "badsig":
+		return c17ProbeObs{"badsig", "found=" + lib.HexS(secret) + "=0=~=~=~"}
+	case "in":
+		return c17ProbeObs{"in", "found=" + lib.HexS(secret) + "=1=~=~=~"}
+	default:
+		return c17ProbeObs{"err:" + out, "err:" + out}
+	}
+}
+
+// roleProbe: CreateBucket is denied to role user; the admin API is open to role admin only.
+// Two requests, hence two lookups: two observations.
+func (e *c17Env) roleProbe(k, secret string) []c17ProbeObs {
+	e.n++
+	cr := gw.Creds{Access: k, Secret: secret}
+	r1 := gw.Do(e.g.Addr(), gw.Req{Method: "PUT", Path: "/rb" + strconv.Itoa(e.n), Auth: "header", Creds: cr})
+	obs := func(r gw.Resp, allowedMeans, deniedMeans string) c17ProbeObs {
+		switch out := c17AuthOutcome(r); {
+		case out == "nokey":
+			return c17ProbeObs{"nokey", "nosuchuser"}
+		case out == "badsig":
+			return c17ProbeObs{"badsig", "found=" + lib.HexS(secret) + "=0=~=~=~"}
+		case out != "in":
+			return c17ProbeObs{"err:" + out, "err:" + out}
+		case r.Status >= 200 && r.Status < 300:
+			return c17ProbeObs{"role:" + allowedMeans, "found=" + lib.HexS(secret) + "=1=" + allowedMeans + "=~=~"}
+		case r.ErrCode() == "AccessDenied" || r.ErrCode() == "XAdminAccessDenied":
+			return c17ProbeObs{"role:" + deniedMeans, "found=" + lib.HexS(secret) + "=1=" + deniedMeans + "=~=~"}
+		}
+		return c17ProbeObs{fmt.Sprintf("err:%d:%s", r.Status, r.ErrCode()), "err:unexpected"}
+	}
+	// the oracle's pattern names ONE role; "not user" / "not admin" are expressed by what the
+	// second request adds: see c17RoleOf
+	o1 := obs(r1, "notuser", "user")
+	r2 := gw.Do(e.g.AdminAddr(), gw.Req{Method: "PATCH", Path: "/list-users", Auth: "header", Creds: cr})
+	o2 := obs(r2, "admin", "notadmin")
+	return []c17ProbeObs{o1, o2}
+}
+
+// ownerProbe: the account creates a file; its owner is the account's uid/gid (--chuid --chgid)
+func (e *c17Env) ownerProbe(k, secret string) c17ProbeObs {
+	e.n++
+	name := "o" + strconv.Itoa(e.n)
+	r := gw.Do(e.g.Addr(), gw.Req{Method: "PUT", Path: "/pub/" + name, Body: []byte("x"), Auth: "header", Creds: gw.Creds{Access: k, Secret: secret}})
+	switch out := c17AuthOutcome(r); {
+	case out == "nokey":
+		return c17ProbeObs{"nokey", "nosuchuser"}
+	case out == "badsig":
+		return c17ProbeObs{"badsig", "found=" + lib.HexS(secret) + "=0=~=~=~"}
+	case out != "in" || r.Status != 200:
+		return c17ProbeObs{fmt.Sprintf("err:%s:%d:%s", out, r.Status, r.ErrCode()), "err:put"}
+	}
+	st, err := os.Stat(filepath.Join(e.cfg.Root, "pub", name))
+	if err != nil {
+		return c17ProbeObs{"err:stat", "err:stat"}
+	}
+	sys := st.Sys().(*syscall.Stat_t)
+	return c17ProbeObs{fmt.Sprintf("owner:%d:%d", sys.Uid, sys.Gid), fmt.Sprintf("found=%s=1=~=%d=%d", lib.HexS(secret), sys.Uid, sys.Gid)}
+}
+
+// what the model's answer to the lookup implies for the observation of a probe request
+func c17Expect(modelRes string, kind string, secret string, second bool) string {
+	if modelRes == "nosuchuser" {
+		return "nokey"
+	}
+	p := strings.Split(strings.TrimPrefix(modelRes, "acct="), ":")
+	if len(p) != 5 {
+		return "?" + modelRes
+	}
+	if p[1] != lib.HexS(secret) {
+		return "badsig"
+	}
+	switch kind {
+	case "auth":
+		return "in"
+	case "role":
+		if !second {
+			if p[2] == "user" {
+				return "role:user"
+			}
+			return "role:notuser"
+		}
+		if p[2] == "admin" {
+			return "role:admin"
+		}
+		return "role:notadmin"
+	case "owner":
+		return "owner:" + p[3] + ":" + p[4]
+	}
+	return "?"
+}
+
+// ---------------------------------------------------------------- cache keys that alias request memory
+
+// c17Alias runs the minimal witness of a defect that only exists in the running gateway (the
+// in-process tie passes ordinary Go strings): icache.update assigns `items[k] = item` with the k it
+// was given — Go's map assignment replaces the stored key by it — and the admin controller passes
+// ctx.Query("access"), a string into the request's memory, which fasthttp reuses.  The next admin
+// request with another access key of the same length rewrites the cached key: the deleted key b
+// now names a's entry.  Returns whether the defect shows.
+func c17Alias(a lib.Args, res *lib.Result, v c17Variant) (bool, error) {
+	// whether the overwritten memory is the one the key points to depends on which request object
+	// fasthttp hands to the next request: a few attempts
+	for try := 0; try < 5; try++ {
+		shown, err := c17AliasOnce(a, res, v, try)
+		if err != nil || shown {
+			return shown, err
+		}
+	}
+	return false, nil
+}
+
+func c17AliasOnce(a lib.Args, res *lib.Result, v c17Variant, try int) (bool, error) {
+	e, err := c17StartGw(a, "c17-alias-"+strconv.Itoa(try), c17Mode{Cache: true}, nil, a.GwBin, nil)
+	if err != nil {
+		return false, err
+	}
+	defer e.close()
+	s3 := "s3"
+	ops := []c17Op{{Kind: "create", Acct: &c17Acct{"a", "s1", "user", 0, 0}}, {Kind: "create", Acct: &c17Acct{"b", "s2", "user", 0, 0}},
+		{Kind: "update", Key: "a", Secret: &s3}, {Kind: "delete", Key: "b"}}
+	var recs []c17Rec
+	clock := 0
+	var obs []string
+	for _, o := range ops {
+		x := e.admin(o)
+		obs = append(obs, x)
+		recs = append(recs, c17Rec{clock, clock + 1, o, x, -1})
+		clock += 2
+	}
+	// the deleted key with the OTHER account's secret
+	p := e.authProbe("b", "s3")
+	obs = append(obs, p.What)
+	recs = append(recs, c17Rec{clock, clock + 1, c17Op{Kind: "get", Key: "b"}, p.Pat, -1})
+	out, err := a.Driver.Ask([]string{c17LinLine(nil, recs)})
+	if err != nil {
+		return false, err
+	}
+	res.Count("e2e-alias", true, "e2e-alias:update-then-other-key")
+	if out[0] != "ok" {
+		res.Fail(lib.Failure{Kind: "property", Signature: "iam:update-user:cache-key-aliases-request-memory",
+			What: "real gateway: after update-user of account a, delete-user of account b is acknowledged, and a request signed with the deleted access key b and a's secret is authenticated (the cached key of a's entry points into request memory that the delete-user request overwrote)",
+			Input: map[string]interface{}{"stage": "e2e-alias", "ops": ops, "probe": "GET / signed with access b, secret s3"}, Impl: strings.Join(obs, " "), Model: "ok ok ok ok nokey"})
+		return true, nil
+	}
+	return p.What != "nokey", nil
+}
+
+// c17AliasMiss: the same hazard on the miss path.  GetUserAccount stores what it fetched under the
+// caller's `access` string; the authentication middleware hands over a view into fasthttp's request
+// memory whenever ParseAuthorization did not have to copy the header (no blank after the commas)
+// or the key came from a presigned URL's query.  When the request object is reused, the cached key
+// changes under the map: valid requests of other accounts find the wrong entry and are refused.
+// Several accounts, no account change at all, a freshly started gateway (cold cache), concurrent
+// requests — sporadic by nature: reported when it shows.
+func c17AliasMiss(a lib.Args, res *lib.Result, v c17Variant) error {
+	rounds := 3
+	if a.Thorough() {
+		rounds = 12
+	}
+	accts := []c17Acct{{"a", "s1", "user", 0, 0}, {"bb", "s2", "user", 0, 0}, {"ccc", "s3", "user", 0, 0}, {"d", "s4", "user", 0, 0}}
+	for round := 0; round < rounds; round++ {
+		e, err := c17StartGw(a, "c17-aliasmiss-"+strconv.Itoa(round), c17Mode{Cache: true}, accts, a.GwBin, nil)
+		if err != nil {
+			return err
+		}
+		type bad struct {
+			k   string
+			obs c17ProbeObs
+		}
+		var mu sync.Mutex
+		var bads []bad
+		n := 0
+		var wg sync.WaitGroup
+		for w := 0; w < 6; w++ {
+			wg.Add(1)
+			go func(w int) {
+				defer wg.Done()
+				for i := 0; i < 30; i++ {
+					x := accts[(w+i)%len(accts)]
+					r := gw.DoCompactAuth(e.g.Addr(), gw.Req{Method: "GET", Path: "/", Auth: "header", Creds: gw.Creds{Access: x.Access, Secret: x.Secret}})
+					mu.Lock()
+					n++
+					if out := c17AuthOutcome(r); out != "in" && out != "transport" {
+						o := c17ProbeObs{"badsig", "found=" + lib.HexS(x.Secret) + "=0=~=~=~"}
+						if out == "nokey" {
+							o = c17ProbeObs{"nokey", "nosuchuser"}
+						}
+						bads = append(bads, bad{x.Access, o})
+					}
+					mu.Unlock()
+				}
+			}(w)
+		}
+		wg.Wait()
+		e.close()
+		res.Count("e2e-alias-miss:"+strconv.Itoa(round), true, "e2e-alias-miss:rounds")
+		res.Histogram["e2e-alias-miss:requests"] += n
+		res.Histogram["e2e-alias-miss:valid-requests-refused"] += len(bads)
+		if len(bads) > 0 {
+			b := bads[0]
+			out, err := a.Driver.Ask([]string{c17LinLine(accts, []c17Rec{{0, 1, c17Op{Kind: "get", Key: b.k}, b.obs.Pat, -1}})})
+			if err != nil {
+				return err
+			}
+			if out[0] != "ok" {
+				res.Fail(lib.Failure{Kind: "property", Signature: "iam:miss-path-cache-key-aliases-request-buffer",
+					What: fmt.Sprintf("real gateway, cold cache, four accounts that are never changed, concurrent valid requests (Authorization header without blanks after the commas): %d of %d were refused (%s for account %q): the lookup found another account's entry, whose cached key is a view into reused request memory", len(bads), n, b.obs.What, b.k),
+					Input: map[string]interface{}{"stage": "e2e-alias-miss", "accounts": accts, "note": "sporadic: depends on which request objects fasthttp reuses"}, Impl: b.obs.What, Model: "in"})
+				return nil
+			}
+		}
+	}
+	return nil
+}
+
+// ---------------------------------------------------------------- sequential e2e histories
+
+type c17E2EHist struct {
+	Stage string     `json:"stage"` // "e2e"
+	Mode  c17Mode    `json:"mode"`
+	Init  []c17Acct  `json:"init"`
+	Ops   []c17Op    `json:"ops"` // admin calls, `adv`, `restart`
+	Var   c17Variant `json:"variant"`
+}
+
+type c17E2ERun struct {
+	Lines  []string // model script
+	Obs    []string // one observation per script line (after the reset)
+	Want   []func(modelOut string) string
+	Recs   []c17Rec
+	Unsafe bool
+	IOErr  bool
+}
+
+func c17RunE2E(a lib.Args, idx int, h c17E2EHist) (c17E2ERun, error) {
+	var run c17E2ERun
+	e, err := c17StartGw(a, "c17-e2e-"+strconv.Itoa(idx), h.Mode, h.Init, a.GwBin, nil)
+	if err != nil {
+		return run, err
+	}
+	defer e.close()
+	ttl := 0
+	if h.Mode.Cache {
+		ttl = 1000000
+		if h.Mode.GC {
+			ttl = c17TTLUnits
+		}
+	}
+	reset := func(init []c17Acct) {
+		run.Lines = append(run.Lines, fmt.Sprintf("iam reset %s %d 0 %s %s", h.Var.bits(h.Mode.Cache), ttl, c17Root.enc(), c17EncAccts(init)))
+		run.Obs = append(run.Obs, "ok")
+		run.Want = append(run.Want, func(m string) string { return m })
+	}
+	reset(h.Init)
+	clock := 0
+	ident := func(m string) string { return m }
+	// secrets ever used per key: the probes try all of them
+	secrets := map[string][]string{}
+	note := func(k, s string) {
+		for _, x := range secrets[k] {
+			if x == s {
+				return
+			}
+		}
+		secrets[k] = append(secrets[k], s)
+	}
+	for _, acc := range h.Init {
+		note(acc.Access, acc.Secret)
+	}
+	lookup := func(k string, kind, secret string, second bool, o c17ProbeObs) {
+		run.Lines = append(run.Lines, "iam call get="+lib.HexS(k))
+		run.Obs = append(run.Obs, o.What)
+		run.Want = append(run.Want, func(m string) string { return c17Expect(m, kind, secret, second) })
+		pat := o.Pat
+		// role patterns: "notuser"/"notadmin" cannot be written as one role; the oracle gets what
+		// is certain (user / admin), else only the secret
+		pat = strings.Replace(pat, "=notuser=", "=~=", 1)
+		pat = strings.Replace(pat, "=notadmin=", "=~=", 1)
+		run.Recs = append(run.Recs, c17Rec{clock, clock + 1, c17Op{Kind: "get", Key: k}, pat, len(run.Lines) - 1})
+		clock += 2
+	}
+	segStart := time.Now()
+	slack := 700 * time.Millisecond
+	for _, o := range h.Ops {
+		switch o.Kind {
+		case "adv":
+			if time.Since(segStart) > slack/2 {
+				run.Unsafe = true
+			}
+			time.Sleep(1200 * time.Millisecond)
+			run.Lines = append(run.Lines, fmt.Sprintf("iam tick %d", c17AdvUnits))
+			run.Obs = append(run.Obs, "ok")
+			run.Want = append(run.Want, ident)
+			segStart = time.Now()
+			continue
+		case "restart":
+			lst := e.admin(c17Op{Kind: "list"})
+			if err := e.g.Restart(); err != nil {
+				return run, err
+			}
+			// the model of the new process starts on what the old one listed (compared below anyway)
+			var init []c17Acct
+			for _, x := range strings.Split(strings.TrimPrefix(lst, "accts="), ",") {
+				p := strings.Split(x, ":")
+				if len(p) == 5 {
+					ab, _ := hex.DecodeString(p[0])
+					sb, _ := hex.DecodeString(p[1])
+					u, _ := strconv.Atoi(p[3])
+					g, _ := strconv.Atoi(p[4])
+					init = append(init, c17Acct{string(ab), string(sb), p[2], u, g})
+				}
+			}
+			run.Lines = append(run.Lines, "iam call list")
+			run.Obs = append(run.Obs, lst)
+			run.Want = append(run.Want, ident)
+			run.Recs = append(run.Recs, c17Rec{clock, clock + 1, c17Op{Kind: "list"}, lst, len(run.Lines) - 1})
+			clock += 2
+			reset(init)
+			segStart = time.Now()
+			continue
+		}
+		x := e.admin(o)
+		if c17EnvError(x) {
+			run.IOErr = true
+		}
+		run.Lines = append(run.Lines, "iam call "+o.enc())
+		run.Obs = append(run.Obs, x)
+		run.Want = append(run.Want, ident)
+		run.Recs = append(run.Recs, c17Rec{clock, clock + 1, o, x, len(run.Lines) - 1})
+		clock += 2
+		if o.Kind == "create" {
+			note(o.Acct.Access, o.Acct.Secret)
+		}
+		if o.Kind == "update" && o.Secret != nil {
+			note(o.Key, *o.Secret)
+		}
+		if o.Kind == "list" {
+			continue
+		}
+		// right after the acknowledgement: every secret this key ever had, then role and file owner
+		// with the one that works
+		k := o.key()
+		if k == c17Root.Access {
+			continue
+		}
+		working := ""
+		for _, s := range secrets[k] {
+			ob := e.authProbe(k, s)
+			lookup(k, "auth", s, false, ob)
+			if ob.What == "in" {
+				working = s
+			}
+		}
+		if working != "" {
+			ro := e.roleProbe(k, working)
+			lookup(k, "role", working, false, ro[0])
+			lookup(k, "role", working, true, ro[1])
+			lookup(k, "owner", working, false, e.ownerProbe(k, working))
+		}
+	}
+	if time.Since(segStart) > slack/2 && h.Mode.GC {
+		run.Unsafe = true
+	}
+	return run, nil
+}
+
+// while cache keys alias request memory (c17Alias), an update-user followed by an update-user /
+// delete-user of ANOTHER key in the same process is that defect again: the generated histories stay
+// on the updated key until the next restart, so that they test everything else
+func c17ConfineAfterUpdate(ops []c17Op) []c17Op {
+	pinned := ""
+	for i := range ops {
+		o := &ops[i]
+		switch {
+		case o.Kind == "restart":
+			pinned = ""
+		case o.Kind == "update" && pinned == "":
+			pinned = o.Key
+		case (o.Kind == "update" || o.Kind == "delete") && pinned != "":
+			o.Key = pinned
+		}
+	}
+	return ops
+}
+
+func c17GenE2E(r *lib.Rand, v c17Variant) c17E2EHist {
+	h := c17E2EHist{Stage: "e2e", Var: v}
+	switch x := r.Intn(100); {
+	case x < 55:
+		h.Mode = c17Mode{Cache: true}
+	case x < 75:
+		h.Mode = c17Mode{Cache: true, GC: true} // here: ttl 2 s, with clock advances (no pruning end to end)
+	default:
+		h.Mode = c17Mode{Cache: false}
+	}
+	h.Init = c17GenInit(r)
+	n := 5 + r.Intn(6)
+	for i := 0; i < n; i++ {
+		o := c17GenOp(r, false)
+		for o.Kind == "get" || o.key() == c17Root.Access {
+			o = c17GenOp(r, false)
+		}
+		h.Ops = append(h.Ops, o)
+		if h.Mode.GC && r.Chance(25) {
+			h.Ops = append(h.Ops, c17Op{Kind: "adv"})
+		}
+		if r.Chance(8) {
+			h.Ops = append(h.Ops, c17Op{Kind: "restart"})
+		}
+	}
+	return h
+}
+
+func c17E2ECorpus(v c17Variant) []c17E2EHist {
+	acc := c17Acct{"a", "s1", "userplus", 5, 1000}
+	adm := c17Acct{"b", "s2", "admin", 1000, 5}
+	s3, seven := "s3", 7
+	cache := c17Mode{Cache: true}
+	return []c17E2EHist{
+		{Stage: "e2e", Mode: cache, Var: v, Ops: []c17Op{{Kind: "create", Acct: &acc}, {Kind: "create", Acct: &adm}, {Kind: "list"},
+			{Kind: "update", Key: "a", Secret: &s3, UID: &seven}, {Kind: "delete", Key: "b"}, {Kind: "restart"}, {Kind: "update", Key: "a", Secret: &acc.Secret}}},
+		{Stage: "e2e", Mode: c17Mode{Cache: true, GC: true}, Var: v, Init: []c17Acct{acc}, Ops: []c17Op{{Kind: "update", Key: "a", GID: &seven}, {Kind: "adv"}, {Kind: "adv"},
+			{Kind: "update", Key: "a", Secret: &s3}, {Kind: "delete", Key: "a"}, {Kind: "create", Acct: &c17Acct{"a", "s2", "user", 0, 0}}}},
+		{Stage: "e2e", Mode: c17Mode{Cache: false}, Var: v, Ops: []c17Op{{Kind: "create", Acct: &acc}, {Kind: "update", Key: "a", Secret: &s3}, {Kind: "delete", Key: "a"}}},
+	}
+}
+
+func c17E2ESeq(a lib.Args, res *lib.Result, v c17Variant, alias bool) error {
+	var hists []c17E2EHist
+	if in := a.ReplayInput(); in != nil {
+		if in["stage"] != "e2e" {
+			return nil
+		}
+		b, _ := json.Marshal(in)
+		var h c17E2EHist
+		if err := json.Unmarshal(b, &h); err != nil {
+			return err
+		}
+		h.Var = v
+		hists = []c17E2EHist{h}
+	} else {
+		hists = c17E2ECorpus(v)
+		n := 5
+		if a.Thorough() {
+			n = 80
+		}
+		r := lib.NewRandStream(a.Seed, 1704)
+		for i := 0; i < n; i++ {
+			hists = append(hists, c17GenE2E(r, v))
+		}
+		// (always: whether the aliasing shows in a given run depends on which request objects
+		// fasthttp reuses, so a probe cannot tell that it is absent; c17Alias tests that pattern)
+		for i := range hists {
+			hists[i].Ops = c17ConfineAfterUpdate(hists[i].Ops)
+		}
+	}
+	runs := make([]c17E2ERun, len(hists))
+	errs := make([]error, len(hists))
+	var wg sync.WaitGroup
+	sem := make(chan struct{}, 4)
+	for i := range hists {
+		wg.Add(1)
+		sem <- struct{}{}
+		go func(i int) {
+			defer wg.Done()
+			defer func() { <-sem }()
+			for try := 0; try < 3; try++ {
+				runs[i], errs[i] = c17RunE2E(a, i*10+try, hists[i])
+				if errs[i] != nil || !(runs[i].Unsafe || runs[i].IOErr) {
+					return
+				}
+				if runs[i].IOErr {
+					c17RetryPause(try)
+				}
+			}
+		}(i)
+	}
+	wg.Wait()
+	for _, e := range errs {
+		if e != nil {
+			return e
+		}
+	}
+	var lines []string
+	at := make([]int, len(hists))
+	for i, h := range hists {
+		at[i] = len(lines)
+		lines = append(lines, runs[i].Lines...)
+		lines = append(lines, c17LinLine(h.Init, runs[i].Recs))
+	}
+	out, err := a.Driver.Ask(lines)
+	if err != nil {
+		return err
+	}
+	for i, h := range hists {
+		run := runs[i]
+		canon, _ := json.Marshal(h)
+		if run.Unsafe {
+			res.Count(string(canon), false, "e2e:skipped:timing-unsafe")
+			continue
+		}
+		classes := []string{"e2e:mode:" + h.Mode.String()}
+		for _, o := range h.Ops {
+			classes = append(classes, "e2e:op:"+o.Kind)
+		}
+		res.Count(string(canon), true, classes...)
+		res.Histogram["e2e:requests"] += len(run.Lines)
+		mout := out[at[i] : at[i]+len(run.Lines)]
+		verdict := out[at[i]+len(run.Lines)]
+		for j := range run.Lines {
+			if strings.HasPrefix(run.Lines[j], "iam call get=") {
+				res.Histogram["e2e:observed:"+strings.SplitN(run.Obs[j], ":", 2)[0]]++
+			}
+		}
+		if verdict != "ok" {
+			sig, what := c17Classify(a.Driver, h.Init, run.Recs, c17Evidence{V: v, Script: run.Lines})
+
+			res.Fail(lib.Failure{Kind: "property", Signature: sig, What: "end to end: the observed history of admin calls and authenticated requests is not a history of the plain account map: " + what, Input: h,
+				Impl: strings.Join(run.Obs, " "), Model: strings.Join(mout, " ")})
+		}
+		for j := range run.Lines {
+			if want := run.Want[j](mout[j]); want != run.Obs[j] {
+				res.Fail(lib.Failure{Kind: "correspondence", Signature: "iam:e2e:" + h.Mode.String() + ":" + strings.Fields(run.Lines[j])[1],
+					What: fmt.Sprintf("request %d (%s): the gateway shows %q, the model's answer %q implies %q", j, run.Lines[j], run.Obs[j], mout[j], want), Input: h,
+					Impl: run.Obs[j], Model: mout[j]})
+				break
+			}
+		}
+	}
+	return nil
+}
+
+// ---------------------------------------------------------------- parallel admin mutations + restart
+
+func c17E2EPar(a lib.Args, res *lib.Result, v c17Variant) error {
+	rounds := 2
+	if a.Thorough() {
+		rounds = 12
+	}
+	r := lib.NewRandStream(a.Seed, 1705)
+	for round := 0; round < rounds; round++ {
+		mode := c17Mode{Cache: r.Chance(70)}
+		init := c17GenInit(r)
+		e, err := c17StartGw(a, "c17-par-"+strconv.Itoa(round), mode, init, a.GwBin, nil)
+		if err != nil {
+			return err
+		}
+		var ops []c17Op
+		sameKey := r.Bool()
+		for i := 0; i < 7; i++ {
+			o := c17GenOp(r, false)
+			for !o.isMut() || o.key() == c17Root.Access {
+				o = c17GenOp(r, false)
+			}
+			if !sameKey {
+				// distinct keys: every call its own account
+				k := "k" + strconv.Itoa(i)
+				if o.Kind == "create" {
+					o.Acct.Access = k
+				} else {
+					o.Key = k
+				}
+			}
+			if o.Kind == "create" && !v.CopyIds && !v.Invalidate {
+				o.Acct.UID, o.Acct.GID = 0, 0 // (the uid/gid defect is the business of the sequential histories)
+			}
+			ops = append(ops, o)
+		}
+		var clock int64
+		recs := make([]c17Rec, len(ops))
+		var wg sync.WaitGroup
+		for i, o := range ops {
+			wg.Add(1)
+			go func(i int, o c17Op) {
+				defer wg.Done()
+				inv := int(atomic.AddInt64(&clock, 1))
+				x := e.admin(o)
+				recs[i] = c17Rec{inv, int(atomic.AddInt64(&clock, 1)), o, x, -1}
+			}(i, o)
+		}
+		wg.Wait()
+		lst := func() string {
+			inv := int(atomic.AddInt64(&clock, 1))
+			x := e.admin(c17Op{Kind: "list"})
+			recs = append(recs, c17Rec{inv, int(atomic.AddInt64(&clock, 1)), c17Op{Kind: "list"}, x, -1})
+			return x
+		}
+		before := lst()
+		// the file itself: parses, and is what the gateway lists; nothing else lies in the directory
+		var doc struct {
+			AccessAccounts map[string]struct {
+				Access  string `json:"access"`
+				Secret  string `json:"secret"`
+				Role    string `json:"role"`
+				UserID  int    `json:"userID"`
+				GroupID int    `json:"groupID"`
+			} `json:"accessAccounts"`
+		}
+		input := map[string]interface{}{"stage": "e2e-par", "mode": mode, "init": init, "ops": ops, "note": "not replayable: the interleaving was chosen by the runtime"}
+		b, err := os.ReadFile(filepath.Join(e.cfg.IAMDir, "users.json"))
+		if err != nil || json.Unmarshal(b, &doc) != nil {
+			res.Fail(lib.Failure{Kind: "property", Signature: "iam:store:corrupt-after-concurrent-mutations", What: fmt.Sprintf("users.json does not parse after parallel admin calls: %v %q", err, b), Input: input})
+		} else {
+			var l []c17Acct
+			for k, x := range doc.AccessAccounts {
+				l = append(l, c17Acct{k, x.Secret, x.Role, x.UserID, x.GroupID})
+			}
+			sort.Slice(l, func(i, j int) bool { return l[i].Access < l[j].Access })
+			if "accts="+c17EncAccts(l) != before {
+				res.Fail(lib.Failure{Kind: "property", Signature: "iam:store:file-differs-from-listing", What: "users.json and /list-users disagree", Input: input, Impl: "accts=" + c17EncAccts(l), Model: before})
+			}
+		}
+		ents, _ := os.ReadDir(e.cfg.IAMDir)
+		for _, en := range ents {
+			if en.Name() != "users.json" && en.Name() != "users.json.backup" {
+				res.Fail(lib.Failure{Kind: "property", Signature: "iam:store:leftover-files", What: "left in the IAM directory after parallel admin calls: " + en.Name(), Input: input})
+			}
+		}
+		if err := e.g.Restart(); err != nil {
+			e.close()
+			return err
+		}
+		after := lst()
+		if after != before {
+			res.Fail(lib.Failure{Kind: "property", Signature: "iam:store:lost-across-restart", What: "the listing after a restart differs from the listing before", Input: input, Impl: after, Model: before})
+		}
+		// later changes still work
+		late := c17Acct{"late", "s1", "user", 0, 0}
+		if x := e.admin(c17Op{Kind: "create", Acct: &late}); x != "ok" {
+			res.Fail(lib.Failure{Kind: "property", Signature: "iam:store:blocked-after-restart", What: "create-user after concurrent mutations and a restart answered " + x, Input: input})
+		}
+		e.close()
+		out, err := a.Driver.Ask([]string{c17LinLine(init, recs)})
+		if err != nil {
+			return err
+		}
+		canon, _ := json.Marshal(recs)
+		cl := "e2e-par:distinct-keys"
+		if sameKey {
+			cl = "e2e-par:same-keys"
+		}
+		res.Count(string(canon), true, cl, "e2e-par:mode:"+mode.String())
+		for _, rc := range recs {
+			res.Histogram["e2e-par:answer:"+rc.Op.Kind+":"+strings.SplitN(rc.Res, "=", 2)[0]]++
+		}
+		if out[0] != "ok" {
+			sig, what := c17Classify(a.Driver, init, recs, c17Evidence{V: v})
+			input["records"] = recs
+			res.Fail(lib.Failure{Kind: "property", Signature: sig, What: "parallel admin calls: answers and listings are not those of some serial order: " + what, Input: input})
+		}
+	}
+	return nil
+}
+
+// ---------------------------------------------------------------- the miss-path race on a real gateway
+
+// c17E2ERace needs the yield point of docs/C17-hooks.patch in the gateway binary (steered through
+// files below VGW_VERIF_IAM_MISS_GATE).  Without it the stage is skipped (and says so).
+func c17E2ERace(a lib.Args, res *lib.Result, v c17Variant) error {
+	acc := c17Acct{"a", "s1", "userplus", 5, 1000}
+	s2 := "s2"
+	for _, change := range []c17Op{{Kind: "delete", Key: "a"}, {Kind: "update", Key: "a", Secret: &s2}} {
+		gate := filepath.Join(a.Work, "c17-gate-"+change.Kind)
+		os.MkdirAll(gate, 0o755)
+		e, err := c17StartGw(a, "c17-race-"+change.Kind, c17Mode{Cache: true}, []c17Acct{acc}, a.GwBin, []string{"VGW_VERIF_IAM_MISS_GATE=" + gate})
+		if err != nil {
+			return err
+		}
+		name := hex.EncodeToString([]byte("a"))
+		hold, held := filepath.Join(gate, "hold-"+name), filepath.Join(gate, "held-"+name)
+		os.WriteFile(hold, nil, 0o600)
+		first := make(chan c17ProbeObs, 1)
+		go func() { first <- e.authProbe("a", "s1") }() // cold cache: miss, fetch, then the gate
+		parked := false
+		for t := 0; t < 3000 && !parked; t++ {
+			if _, err := os.Stat(held); err == nil {
+				parked = true
+			} else {
+				select {
+				case o := <-first:
+					first <- o
+					t = 3000
+				default:
+					time.Sleep(time.Millisecond)
+				}
+			}
+		}
+		if !parked {
+			os.Remove(hold)
+			<-first
+			e.close()
+			res.Note("e2e race: the gateway binary has no yield point in GetUserAccount (docs/C17-hooks.patch not applied): stage skipped; the same interleaving is executed in-process by c17Conc")
+			res.Histogram["e2e-race:skipped:no-hook"]++
+			return nil
+		}
+		ack := e.admin(change) // complete, acknowledged
+		os.Remove(hold)        // the lookup stores what it fetched
+		o1 := <-first
+		o2 := e.authProbe("a", "s1") // a NEW request with the old credentials
+		o3 := e.authProbe("a", "s2")
+		e.close()
+		os.RemoveAll(gate)
+		script := []string{
+			fmt.Sprintf("iam reset %s 1000000 0 %s %s", v.bits(true), c17Root.enc(), c17EncAccts([]c17Acct{acc})),
+			"iam invoke get=61", "iam seg 0", "iam seg 0", // miss, fetched
+			"iam call " + change.enc(),
+			"iam seg 0",
+			"iam call get=61", "iam call get=61",
+		}
+		recs := []c17Rec{
+			{0, 3, c17Op{Kind: "get", Key: "a"}, o1.Pat, 5},
+			{1, 2, change, ack, 4},
+			{4, 5, c17Op{Kind: "get", Key: "a"}, o2.Pat, 6},
+			{6, 7, c17Op{Kind: "get", Key: "a"}, o3.Pat, 7},
+		}
+		out, err := a.Driver.Ask(append(script, c17LinLine([]c17Acct{acc}, recs)))
+		if err != nil {
+			return err
+		}
+		input := map[string]interface{}{"stage": "e2e-race", "change": change, "account": acc}
+		res.Count("e2e-race:"+change.Kind, true, "e2e-race:miss-in-flight-vs-"+change.Kind)
+		obs := []string{ack, o1.What, o2.What, o3.What}
+		want := []string{out[4], c17Expect(c17ModelRes(out[5]), "auth", "s1", false), c17Expect(out[6], "auth", "s1", false), c17Expect(out[7], "auth", "s2", false)}
+		for j := range obs {
+			if obs[j] != want[j] {
+				res.Fail(lib.Failure{Kind: "correspondence", Signature: "iam:e2e-race:" + change.Kind, What: fmt.Sprintf("observation %d: gateway %q, model implies %q", j, obs[j], want[j]), Input: input,
+					Impl: strings.Join(obs, " "), Model: strings.Join(out[:8], " ")})
+				break
+			}
+		}
+		if out[8] != "ok" {
+			segs := []c17Seg{{0, "get", "a", "lookup", "park:enter"}, {0, "get", "a", "store", "park:exit"}, {1, change.Kind, "a", "store", "park:exit"}, {1, change.Kind, "a", "cache", "ret:ok"}, {0, "get", "a", "cache", "ret"}}
+			sig, what := c17Classify(a.Driver, []c17Acct{acc}, recs, c17Evidence{V: v, Script: script, Segs: segs})
+			res.Fail(lib.Failure{Kind: "property", Signature: sig, What: "real gateway, lookup parked between fetch and cache.set while the admin API acknowledges the change: " + what, Input: input,
+				Impl: strings.Join(obs, " "), Model: strings.Join(out[:8], " ")})
+		}
+	}
+	return nil
+}
+
+func c17E2E(a lib.Args, res *lib.Result) error {
+	if a.GwBin == "" {
+		return nil
+	}
+	if _, err := os.Stat(a.GwBin); err != nil {
+		return fmt.Errorf("no gateway binary: %v", err)
+	}
+	if os.Geteuid() != 0 {
+		res.Note("e2e: not running as root: --chuid/--chgid cannot be observed; stage skipped")
+		return nil
+	}
+	v, err := c17Detect(a)
+	if err != nil {
+		return err
+	}
+	stage := ""
+	if in := a.ReplayInput(); in != nil {
+		stage, _ = in["stage"].(string)
+		if !strings.HasPrefix(stage, "e2e") {
+			return nil
+		}
+	}
+	want := func(st string) bool { return stage == "" || stage == st }
+	alias := false
+	if want("e2e-alias") || want("e2e") {
+		if alias, err = c17Alias(a, res, v); err != nil {
+			return err
+		}
+	}
+	if want("e2e") {
+		if err := c17E2ESeq(a, res, v, alias); err != nil {
+			return err
+		}
+	}
+	if want("e2e-par") {
+		if err := c17E2EPar(a, res, v); err != nil {
+			return err
+		}
+	}
+	if want("e2e-race") {
+		if err := c17E2ERace(a, res, v); err != nil {
+			return err
+		}
+	}
+	if !want("e2e-alias-miss") {
+		return nil
+	}
+	return c17AliasMiss(a, res, v)
+}
